@@ -73,7 +73,9 @@ PROPS.update({
         "level_note": COMMON_NOTE + "; JSON values modelled by an uninterpreted sort with tag predicates",
         "tasks": ["Session.setup", "SequentialRunner._generate_markets[count-range-names]", "SequentialRunner._generate_agents[count-range-names]", "JsonRandom.random",
                   "SequentialRunner._generate_sessions[session]"],
-        "not_decided": ["inheritance, class lookup: contracts not finished in this commit"],
+        "bounded": [{"name": "accessible markets of generated agents = the markets of the listed groups; class lookup; all configuration cases of the witness search", "replayer": "config",
+                     "bound": "every assignment of 1..3 markets to 3 groups x every ordered selection of groups; registrations over 2 ids x 2 names x 2 groups up to length 3; Agent.setup over id lists up to length 3 from 4 ids", "timeout": 900}],
+        "not_decided": ["the flattening expression that computes the accessible market ids in _generate_agents and find_class (import machinery): bounded stand-in only"],
     },
 })
 EXEC_TASKS = ["Market._execution", "Market._execute_orders", "Market.remain_executable_orders", "OrderBook.change_order_volume", "OrderBook._remove", "Order.compare"]
@@ -175,7 +177,10 @@ PROPS["C12"] = {
     "bounded": [{"name": "_generate_next contract, zero-volatility path, covariance algebra", "replayer": "fundamentals", "bound": "150 (quick) / 3000 (thorough) seeded cases per clause: 1-4 markets, chunk 3/5/100, 1-6 operations", "timeout": 1500}],
     "not_decided": ["that sample log-returns have mean = drift, standard deviation = volatility and the configured correlations (a statement about numpy's standard_normal)"],
 }
-PROPS["C18"]["tasks"] += ["json_extends", "Simulator._add_market", "Simulator._add_agent", "Simulator._add_session"]
+PROPS["C18"]["tasks"] += ["json_extends", "Simulator._add_market", "Simulator._add_agent", "Simulator._add_session",
+                          "Agent.setup", "Agent.is_market_accessible", "Agent.set_market_accessible", "Agent.set_asset_volume"]
+PROPS["C17"]["tasks"] += ["IndexMarket._add_markets", "IndexMarket.setup"]
+PROPS["C05"]["tasks"] += ["Agent.update_asset_volume", "Agent.update_cash_amount", "Agent.set_asset_volume", "Agent.set_cash_amount", "Agent.get_asset_volume", "Agent.get_cash_amount"]
 PROPS["C10"]["tasks"] += SKELETON
 PROPS["C05"]["tasks"] += RUNNER_ELEMS
 PROPS["C06"]["tasks"] += SKELETON + ["SequentialRunner._generate_sessions[session]"]
